@@ -170,3 +170,72 @@ pub fn run(ty: &str, args: &[i128]) -> Vec<i128> {
         _ => vec![-557],
     }
 }
+
+// LARGE windows (family windowbig_<ty>): backend size cap pushes v0.  The values v0, v0+1, ... are pushed; after each of the LAST
+// FOUR pushes the window is compared, inside the harness, with the closed form of the model's theorem window_is_last_n (the slice is
+// exactly the last N pushed values in push order; first / last / filled accordingly).
+// output per checked push: number of slice positions that differ, first ok, last ok, filled, arr positions that differ (-1: arr failed)
+fn drive_big<S: WindowStorage<T>, T: Elem, const N: usize>(mut w: SlidingWindow<S, T>, pushes: usize, v0: i128) -> Vec<i128> {
+    let mut out = Vec::new();
+    for i in 0..pushes {
+        w.push(T::mk(v0 + i as i128));
+        if i + 4 >= pushes {
+            let newest = v0 + i as i128;
+            if i + 1 < N { out.extend([-2, -2, -2, w.filled() as i128, -2]); continue; }      // not yet filled: not judged here (the small histories cover it)
+            let oldest = newest - (N as i128 - 1);
+            let bad = match w.slice() {
+                Ok(s) => if s.len() != N { -3 } else { s.iter().enumerate().filter(|(j, x)| x.back() != T::mk(oldest + *j as i128).back()).count() as i128 },
+                Err(_) => -1,
+            };
+            let bad_arr = match w.arr::<N>() {
+                Ok(a) => a.iter().enumerate().filter(|(j, x)| x.back() != T::mk(oldest + *j as i128).back()).count() as i128,
+                Err(_) => -1,
+            };
+            out.push(bad);
+            out.push((w.first().map(|v| v.back()).unwrap_or(-1) == T::mk(oldest).back()) as i128);
+            out.push((w.last().map(|v| v.back()).unwrap_or(-1) == T::mk(newest).back()) as i128);
+            out.push(w.filled() as i128);
+            out.push(bad_arr);
+        }
+    }
+    out
+}
+
+macro_rules! big_arr {
+    ($t:ty, $b:expr, $n:expr, $c:expr, $p:expr, $v0:expr; $( ($N:literal, $C:literal) ),* ) => {
+        match ($n, $c) {
+            $( ($N, $C) => {
+                if $b == 0 { drive_big::<_, $t, $N>(window_type::new_with_array_storage::<$t, $N, $C>(), $p, $v0) }
+                else {
+                    #[cfg(feature = "unsafe")]
+                    { drive_big::<_, $t, $N>(window_type::new_with_unsafe_array_storage::<$t, $N, $C>(), $p, $v0) }
+                    #[cfg(not(feature = "unsafe"))]
+                    { vec![-555] }
+                }
+            } )*
+            _ => vec![-556],
+        }
+    };
+}
+
+pub fn run_big(ty: &str, args: &[i128]) -> Vec<i128> {
+    let a: Vec<i128> = args.to_vec(); let ty = ty.to_string();
+    // the array back-ends keep their storage inline: run on a thread with a large stack
+    let h = std::thread::Builder::new().stack_size(512 << 20).spawn(move || {
+        let (b, n, c, p, v0) = (a[0], a[1] as usize, a[2] as usize, a[3] as usize, a[4]);
+        match (b, ty.as_str()) {
+            (0, "u64") | (2, "u64") => big_arr!(u64, b, n, c, p, v0; (8192, 8200), (9000, 18001), (300, 301)),
+            (2, "u32") => big_arr!(u32, b, n, c, p, v0; (16384, 16400), (20000, 20003)),
+            (2, "tri") => big_arr!(Tri, b, n, c, p, v0; (6000, 6011)),
+            (1, "u64") => drive_big::<_, u64, 70000>(window_type::new_with_vector_storage::<u64>(70000, 2), p, v0),
+            (3, "u64") => {
+                #[cfg(feature = "unsafe")]
+                { drive_big::<_, u64, 70000>(window_type::new_with_unsafe_vector_storage::<u64>(70000, 2), p, v0) }
+                #[cfg(not(feature = "unsafe"))]
+                { vec![-555] }
+            }
+            _ => vec![-557],
+        }
+    }).unwrap();
+    h.join().unwrap_or_else(|_| vec![-999])
+}
